@@ -494,7 +494,7 @@ Qed.
 
 (* ====================================================================================== *)
 (* force_reaction *)
-Lemma remove_negligible_nonneg v : nonneg v -> remove_negligible v = v.
+Lemma remove_negligible_nonneg lg v : nonneg v -> remove_negligible lg v = v.
 Proof.
   intros Nn. unfold remove_negligible.
   assert (E : neg_vals v = []).
@@ -505,11 +505,11 @@ Proof.
   rewrite E. reflexivity.
 Qed.
 
-Lemma force_feasible o v : snd (react_obj o v) = None -> nonneg (fst (react_obj o v)) ->
-  force_process o v = (None, fst (react_obj o v)) /\ process o v = (None, fst (react_obj o v)).
+Lemma force_feasible lg o v : snd (react_obj o v) = None -> nonneg (fst (react_obj o v)) ->
+  force_process lg o v = (None, fst (react_obj o v)) /\ process o v = (None, fst (react_obj o v)).
 Proof.
   intros S Nn. unfold force_process, process. destruct (react_obj o v) as [v1 e]. simpl in *. subst e.
-  rewrite (remove_negligible_nonneg v1 Nn). split; auto.
+  rewrite (remove_negligible_nonneg lg v1 Nn). split; auto.
   assert (Z : neg_sum v1 == 0).
   { unfold neg_sum. assert (H : forall i, 0 <= nthq v1 i) by exact Nn. clear Nn. induction v1 as [|x v1 IH]; simpl; [lra|].
     assert (H0 := H O). unfold nthq in H0; simpl in H0. rewrite Q.min_r by lra.
@@ -517,6 +517,70 @@ Proof.
   destruct (qltb (neg_sum v1) (- eps)) eqn:Q.
   - apply qltb_true in Q. destruct eps_value as (_ & E). lra.
   - rewrite (clampv_id v1 Nn). reflexivity.
+Qed.
+
+(* the repaired clean-up: the length is kept, every entry is either left as it is or was negative and is now 0, and an
+   entry set to 0 by the main branch was negligible: above -tiny * sum|v| *)
+Lemma zero_negl_spec total v : length (zero_negl total v) = length v /\
+  forall i, nthq (zero_negl total v) i = nthq v i \/
+            (nthq v i < 0 /\ - tiny < nthq v i / total /\ nthq (zero_negl total v) i = 0).
+Proof.
+  unfold zero_negl. split; [apply map_length|].
+  induction v as [|x v IH]; intros i; [left; destruct i; reflexivity|].
+  destruct i as [|i]; [|simpl map; rewrite !nthq_cons_S; apply IH].
+  unfold nthq. simpl.
+  destruct (qltb x 0) eqn:A; simpl; [|left; reflexivity].
+  destruct (qltb (- tiny) (x / total)) eqn:B; [|left; reflexivity].
+  right. apply qltb_true in A. apply qltb_true in B. auto.
+Qed.
+
+Lemma remove_negligible_repaired v : length (remove_negligible false v) = length v /\
+  forall i, nthq (remove_negligible false v) i = nthq v i \/
+            (nthq v i < 0 /\ nthq (remove_negligible false v) i = 0).
+Proof.
+  unfold remove_negligible. destruct (neg_vals v) as [|n0 negs]; [split; auto|].
+  destruct (qltb tiny (abs_sum v)).
+  - destruct (zero_negl_spec (abs_sum v) v) as (L & H). split; auto.
+    intros i. destruct (H i) as [E|(A & _ & C)]; auto.
+  - split; [apply clampv_length|]. intros i. rewrite nthq_clampv.
+    destruct (qltb (nthq v i) 0) eqn:A; auto. apply qltb_true in A. auto.
+Qed.
+
+(* hence a functional with non-negative weights (mass, atoms of one element) can only grow, by at most the weighted
+   negatives that were removed; nothing else changes *)
+Lemma repaired_dot_bound : forall (a v v' : vec), length v' = length v ->
+  (forall i, 0 <= nthq a i) ->
+  (forall i, nthq v' i = nthq v i \/ (nthq v i < 0 /\ nthq v' i = 0)) ->
+  0 <= vdot a v' - vdot a v /\ vdot a v' - vdot a v <= - wneg_sum a v.
+Proof.
+  induction a as [|x a IH]; intros v v' L Pa H.
+  - rewrite !vdot_nil_l. unfold wneg_sum. simpl. lra.
+  - destruct v as [|y v]; destruct v' as [|y' v']; simpl in L; try discriminate.
+    + rewrite !vdot_nil_r. unfold wneg_sum. simpl. lra.
+    + rewrite !vdot_cons, wneg_sum_cons.
+      destruct (IH v v') as (I1 & I2); [lia | intros i; exact (Pa (S i)) | intros i; exact (H (S i)) |].
+      assert (P0 := Pa O). assert (H0 := H O). unfold nthq in P0, H0. simpl in P0, H0.
+      destruct H0 as [E|(A & E)]; rewrite E.
+      * assert (M : Qmin y 0 <= 0) by apply Q.le_min_r. split; nra.
+      * rewrite (Q.min_l y 0) by lra. split; nra.
+Qed.
+
+Lemma force_repaired_lemma o v v' a : Forall (wf (length v)) (obj_members o) -> Forall (balanced a) (obj_members o) ->
+  (forall i, 0 <= nthq a i) ->
+  force_process false o v = (None, v') ->
+  let v1 := fst (react_obj o v) in
+  length v' = length v /\
+  (forall i, nthq v' i = nthq v1 i \/ (nthq v1 i < 0 /\ nthq v' i = 0)) /\
+  0 <= vdot a v' - vdot a v /\ vdot a v' - vdot a v <= - wneg_sum a v1.
+Proof.
+  intros W B Pa. unfold force_process.
+  destruct (react_obj_conserves o v a W B) as (Lr & Dr).
+  destruct (react_obj o v) as [v1 [e|]]; simpl in *; [discriminate|].
+  intros H; inversion H; subst v'; clear H.
+  destruct (remove_negligible_repaired v1) as (L & P).
+  split; [lia|]. split; auto.
+  destruct (repaired_dot_bound a v1 (remove_negligible false v1) L Pa P) as (B1 & B2).
+  rewrite <- Dr. split; lra.
 Qed.
 
 (* ====================================================================================== *)
